@@ -550,6 +550,15 @@ func (s *scope) createInstance(descriptor *Descriptor) (any, error) {
 		if err := s.setInstance(descriptor, key, instance); err != nil {
 			return nil, err
 		}
+
+		// An instance value registered under several interface aliases is one
+		// service: the value is the instance behind every alias.
+		for _, alias := range descriptor.outputs {
+			if alias != descriptor && s.rootProvider.isRegistered(alias) {
+				s.shareInstance(alias, instance)
+			}
+		}
+
 		return instance, nil
 	}
 
